@@ -59,6 +59,15 @@ def main():
     finally:
         sh("git -C /repo worktree remove --force %s" % wt)
         shutil.rmtree(wt, ignore_errors=True)
+    # keep results of checks evaluated in earlier invocations
+    old_meta = os.path.join(ROOT, "seeded", "%s_%s" % (prop, letter), "meta.json")
+    if os.path.exists(old_meta):
+        try:
+            old = json.load(open(old_meta))
+            for cid, r in old.get("checks", {}).items():
+                res.setdefault("checks", {}).setdefault(cid, r)
+        except Exception:
+            pass
     confirmed = (res.get("applies") and "49 passed" in res.get("tests_with_patch", "")
                  and res.get("demo_with_patch", {}).get("exit") == 1 and res["demo_without_patch"]["exit"] == 0)
     res["confirmed"] = bool(confirmed)
